@@ -308,6 +308,8 @@ pub struct Ed25519Error { pub c: u8 }
 pub uninterp spec fn spec_uuid_bytes(u: Uuid) -> Seq<u8>;
 impl Uuid {
     #[verifier::external_body]
+    pub fn new_v4() -> (r: Uuid) { unimplemented!() }
+    #[verifier::external_body]
     pub fn as_bytes(&self) -> (r: &[u8; 16]) ensures r@ == spec_uuid_bytes(*self) { unimplemented!() }
 }
 
@@ -319,6 +321,12 @@ pub fn static_secp_instance() -> (r: SecpInstance) { unimplemented!() }
 impl SecpInstance {
     #[verifier::external_body]
     pub fn lock(&self) -> (r: SecpGuard) { unimplemented!() }
+}
+// `&guard` where `&Secp256k1` is expected: MutexGuard deref coercion
+impl core::ops::Deref for SecpGuard {
+    type Target = Secp256k1;
+    #[verifier::external_body]
+    fn deref(&self) -> (r: &Secp256k1) { unimplemented!() }
 }
 impl SecpGuard {
     #[verifier::external_body]
